@@ -64,6 +64,9 @@ class ClassRoot(KDDataset):
         return list(self.classes)
 
     def getshape_class(self):
+        # the library's convention for binary problems: two classes with labels 0 / 1 announce the class shape (1,)
+        if self.C == 2 and self.__dict__.get("binary_shape"):
+            return (1,)
         return (self.C,)
 
 
@@ -116,7 +119,16 @@ def selection(kind, spec, args, g=0):
         root = ClassRoot(spec["classes"], spec["C"], spec.get("bulk", "list"), spec.get("native_items", False), spec.get("name_mod"))
         base = root
         inv = None
+    root.binary_shape = bool(spec.get("binary_shape"))
     import copy as _copy
+    if spec.get("prior") and base is not root:
+        # the same wrapper was built over the root object before (another split of the same data): nothing it learned about the root may
+        # leak into the wrapper that is built over a *view* of that root now
+        try:
+            with _Term(1.5):
+                _build(kind, root, _copy.deepcopy(args))
+        except (AssertionError, TimeoutError):
+            pass
     args_before = _copy.deepcopy(args)
     try:
         with _Term(1.5):
@@ -438,6 +450,8 @@ def with_layout(draw, extra, **kw):
     if s.get("bulk") not in ("list", "numpy", "tensor"):
         s["under"] = None
     s["native_items"] = draw(st.booleans())
+    s["prior"] = draw(st.booleans())
+    s["binary_shape"] = draw(st.booleans())
     if "seed" in s:
         s["seed_form"] = draw(st.sampled_from(["int", "int", "numpy"]))
     if s["C"] >= 2 and draw(st.integers(0, 3)) == 0:
